@@ -302,6 +302,12 @@ where
             last_cleared_ts,
         })
     }
+
+    // at least the actor id
+    #[inline]
+    fn minimum_bytes_needed() -> usize {
+        <ActorId as Readable<'a, C>>::minimum_bytes_needed()
+    }
 }
 
 impl<C> Writable<C> for SyncStateV1
@@ -401,6 +407,13 @@ where
             ))
             .into()),
         }
+    }
+
+    // lets speedy bound a `Vec<SyncNeedV1>` reservation by the remaining input:
+    // the variant tag plus at least one byte (`Empty { ts: None }`)
+    #[inline]
+    fn minimum_bytes_needed() -> usize {
+        2
     }
 }
 
